@@ -23,7 +23,7 @@ from .. import common as C
 PATTERNS = {
     "C01": r".",
     "C02": r".",
-    "C04": r"^to_|like",
+    "C04": r"^to_|^like",
     "C09": r"boost|to_beta3",
     "C10": r"rotate",
     "C11": r"^(add|subtract|dot|cross|unit|scale|neg\dD|abs|transform)|^a[+\-@]b|^[-+]v|^v[*/]|\*v$|\*\*|numpy\.(absolute|cbrt|sqrt|square|power)|operator/(?!v[=!]=)|==scale|is-function-of-norm",
